@@ -551,3 +551,34 @@ def repeated_writes(crate, b):
             out.append({"call": c, "host": cb, "site": k.bb, "form": "closure", "start": s["rv"]["ops"][0] if s else None,
                         "bound": s["rv"]["ops"][1] if s else None, "range_bb": i})
     return out
+
+
+def bool_values_under(body, R, op, at, depth=0):
+    """Possible constant values of a bool operand at block `at` when only the blocks R can execute: constants, copies and
+    `Not` are followed through reaching definitions inside R. Returns a set over {True, False, '?'}."""
+    if depth > 6 or not isinstance(op, dict):
+        return {"?"}
+    if op.get("k") == "const":
+        return {op["v"]} if isinstance(op.get("v"), bool) else {"?"}
+    if op["place"]["p"]:
+        return {"?"}
+    l = op["place"]["l"]
+    vals = set()
+    for d in body.defs().get(l, ()):
+        if d["kind"] == "param":
+            vals.add("?")
+            continue
+        if d.get("bb", -1) not in R or not body.def_reaches(d, at):
+            continue
+        if d["kind"] == "assign" and not d["lhs"]["p"]:
+            rv = d["rv"]
+            if rv["k"] == "use":
+                vals |= bool_values_under(body, R, rv["op"], d["bb"], depth + 1)
+            elif rv["k"] == "un" and rv.get("op") == "Not":
+                inner = bool_values_under(body, R, rv["a"], d["bb"], depth + 1)
+                vals |= {(not v) if isinstance(v, bool) else v for v in inner}
+            else:
+                vals.add("?")
+        else:
+            vals.add("?")
+    return vals or {"?"}
